@@ -281,7 +281,9 @@ def _check_invariance(ctx, case):
     J = int(case["gpts"][0]) * int(case["gpts"][1])
     hi = bool(case["hi"])
     learn = list(case["learn"])
-    ctx.record(case, True, _geom_classes("inv", case) + ["inv:learn_" + "+".join(learn)])
+    # non-trivial when at least two training patterns are certain (so that batch size 1 gives >= 2
+    # batches against the one full batch): J - round(J * val_ratio) >= 2
+    ctx.record(case, J - int(round(J * float(case["val_ratio"]))) >= 2, _geom_classes("inv", case) + ["inv:learn_" + "+".join(learn)])
     Rec = _recording_sgd()
     tol = TOL[hi]
 
@@ -597,4 +599,4 @@ def search(ctx):
         run("invariance:" + lt, invariance_cases(lt), 7, 30)
     run("determinism", determinism_cases(), 40, 200)
     for k, v in STATS.items():
-        ctx.extra["max_err_over_tol: " + k] = round(v, 6)
+        ctx.extra["max_err_over_tol: " + k] = float("%.3g" % v)
